@@ -43,7 +43,7 @@ Input space
               inside_outside / maximization x {logarithmic, linear} x {float population_size,
               PopulationSizeHistory dict, user timepoints through build_prior_grid (lognorm, gamma),
               outside_standardize=False, large eps, large min_branch_length}.
-    c       : quick {1e-3, 977.0, 1e6}; thorough adds {1/3, 2**-20, 7e-7, 12345.678, 2**30, 3.3e9}
+    c       : quick {2.9e-10, 977.0, 4.1e9}; thorough adds {1e-3, 1e6, 1/3, 2**-20, 7e-7, 12345.678, 2**30, 3.3e9}
     quick   : 16 inputs (8 sim, 4 shapes, 2 diploid, 2 historical), the first 5 variational and first 7
               discrete configurations, 3 scale factors                                   (not exhaustive)
     thorough: 58 inputs (36 sim, 12 shapes, 6 diploid, 4 historical), every configuration (8-11 variational,
@@ -385,9 +385,9 @@ def run(req, rep):
     tier, seed = req["tier"], req["seed"]
     thorough = tier == "thorough"
     rng = np.random.default_rng(seed)
-    cs = [1e-3, 977.0, 1e6]
+    cs = [2.9e-10, 977.0, 4.1e9]  # extremes first: absolute thresholds (1e-8 tolerances, fixed decimals) only show far from unit scale
     if thorough:
-        cs += [1.0 / 3.0, 2.0 ** -20, 7e-7, 12345.678, 2.0 ** 30, 3.3e9]
+        cs += [1e-3, 1e6, 1.0 / 3.0, 2.0 ** -20, 7e-7, 12345.678, 2.0 ** 30, 3.3e9]
         ins = small_inputs(rng, n_sim=36, n_shape=12, n_dip=6, n_hist=4)
     else:
         ins = small_inputs(rng, n_sim=8, n_shape=4, n_dip=2, n_hist=2)
